@@ -151,10 +151,11 @@ func (s *Seq) recOf(o sod.Object, tag, ctx string) int {
 		}
 		s.fail(t, "wrong-content", "%s: lid=%d content differs\n got: %s\n exp: %s", ctx, r.Lid, g, e)
 	}
+	lid := r.Lid
 	if s.Prof.Scribble {
 		Scribble(r)
 	}
-	return r.Lid
+	return lid
 }
 
 // caseDiffOnly reports whether got differs from exp only on case-constrained paths.
@@ -486,7 +487,7 @@ func (s *Seq) checkTop(got []int, exp map[int]bool, path string, reverse bool, c
 	}
 }
 
-func (s *Seq) probeAssignIndex(path, ctx string) {
+func (s *Seq) probeAssignIndex(path, ctx, tagOv string) {
 	lids := s.M.Lids()
 	exp := fieldVals(s.M, lids, path)
 	sort.Slice(exp, func(i, j int) bool { return model.Cmp(exp[i], exp[j]) > 0 })
@@ -525,6 +526,9 @@ func (s *Seq) probeAssignIndex(path, ctx string) {
 		}
 	}
 	tag := "order"
+	if tagOv != "" {
+		tag = tagOv
+	}
 	if err != nil {
 		s.fail(tag, "assignindex-error", "%s: AssignIndex(%s) failed: %v", ctx, path, err)
 	}
@@ -646,7 +650,7 @@ func (s *Seq) runPlan(plan []Probe, tagOv, ctx string) {
 			}
 			s.checkSearch(p.Q, p.Mode, p.Limit, tagOv, ctx)
 		case "assignindex":
-			s.probeAssignIndex(p.Path, ctx)
+			s.probeAssignIndex(p.Path, ctx, tagOv)
 		case "control":
 			s.probeControl(ctx)
 		}
